@@ -44,6 +44,8 @@ type authorizer struct {
 	policies []Policy
 
 	dirty bool
+	// the token's authority facts and rules are in world
+	authorityLoaded bool
 }
 
 var _ Authorizer = (*authorizer)(nil)
@@ -120,25 +122,30 @@ func (v *authorizer) Authorize() error {
 	// evaluation below succeeds: it must not be saved as policies any more
 	v.dirty = true
 
-	// if we load facts from the verifier before
-	// the token's fact and rules, we might get inconsistent symbols
-	// token ements should first be converted to builder elements
-	// with the token's symbol table, then converted back
-	// with the verifier's symbol table
-	for _, fact := range *v.biscuit.authority.facts {
-		f, err := fromDatalogFact(v.biscuit.symbols, fact)
-		if err != nil {
-			return fmt.Errorf("biscuit: verification failed: %s", err)
+	// the token's authority content is loaded once: calling Authorize again
+	// must not add another copy of the authority rules to the world
+	if !v.authorityLoaded {
+		// if we load facts from the verifier before
+		// the token's fact and rules, we might get inconsistent symbols
+		// token ements should first be converted to builder elements
+		// with the token's symbol table, then converted back
+		// with the verifier's symbol table
+		for _, fact := range *v.biscuit.authority.facts {
+			f, err := fromDatalogFact(v.biscuit.symbols, fact)
+			if err != nil {
+				return fmt.Errorf("biscuit: verification failed: %s", err)
+			}
+			v.world.AddFact(f.convert(v.symbols))
 		}
-		v.world.AddFact(f.convert(v.symbols))
-	}
 
-	for _, rule := range v.biscuit.authority.rules {
-		r, err := fromDatalogRule(v.biscuit.symbols, rule)
-		if err != nil {
-			return fmt.Errorf("biscuit: verification failed: %s", err)
+		for _, rule := range v.biscuit.authority.rules {
+			r, err := fromDatalogRule(v.biscuit.symbols, rule)
+			if err != nil {
+				return fmt.Errorf("biscuit: verification failed: %s", err)
+			}
+			v.world.AddRule(r.convert(v.symbols))
 		}
-		v.world.AddRule(r.convert(v.symbols))
+		v.authorityLoaded = true
 	}
 
 	if err := v.world.Run(v.symbols); err != nil {
@@ -325,6 +332,7 @@ func (v *authorizer) Reset() {
 	v.checks = []Check{}
 	v.policies = []Policy{}
 	v.dirty = false
+	v.authorityLoaded = false
 }
 
 func (v *authorizer) LoadPolicies(authorizerPolicies []byte) error {
